@@ -120,4 +120,38 @@ func init() {
 			p.ruleFloatFormat(c)
 		},
 	})
+	register(&PropertyDef{
+		ID: "C04", Level: "other",
+		Explanation: "E9 index protocol.",
+		Run: func(p *Program, c *Check) {
+			p.ruleCallbackProtocol(c)
+			p.ruleCursor(c)
+			p.ruleWidths(c)
+			p.ruleBuildIndex(c)
+		},
+	})
+	register(&PropertyDef{
+		ID: "C07", Level: "other",
+		Explanation: "E7 parser must-check.",
+		Run: func(p *Program, c *Check) {
+			p.ruleStructuralMinima(c)
+			p.ruleMemberScan(c)
+			p.ruleOptionPropagation(c)
+			p.ruleRequireValid(c)
+			p.ruleRepresentationOptions(c)
+		},
+	})
+	register(&PropertyDef{
+		ID: "C06", Level: "other",
+		Explanation: "E6 writer/reader tables.",
+		Run: func(p *Program, c *Check) {
+			tmp := NewCheck("tmp", "quick")
+			targets := p.ruleMemberScan(tmp)
+			p.ruleTypeTables(c, targets)
+			p.ruleCircleConvention(c)
+			p.ruleFeatureProperties(c)
+			p.rulePositionIndex(c)
+			p.ruleFloatFormat(c)
+		},
+	})
 }
